@@ -37,6 +37,8 @@ type mutex struct {
 	lock    sync.Mutex
 	m       *concurrency.Mutex
 	timeout time.Duration
+	// releaseTimeout bounds the cleanup after a failed Lock.
+	releaseTimeout time.Duration
 }
 
 func (m *mutex) Lock() (err error) {
@@ -53,8 +55,23 @@ func (m *mutex) Lock() (err error) {
 	defer cancel()
 
 	err = m.m.Lock(ctx)
+	if err != nil {
+		// The acquire request may have been applied by etcd although the
+		// client gave up waiting for the answer; the caller does not hold the
+		// lock and will never unlock it, so remove the key (best effort) to
+		// leave the mutex free for the others.
+		m.release()
+	}
 	panicked = false
 	return
+}
+
+// release deletes the key of a failed acquisition, it uses its own deadline
+// because the one of the acquisition has expired already.
+func (m *mutex) release() {
+	ctx, cancel := context.WithTimeout(context.Background(), m.releaseTimeout)
+	defer cancel()
+	m.m.Unlock(ctx)
 }
 
 func (m *mutex) Unlock() error {
@@ -82,6 +99,8 @@ func (c *cluster) Mutex(name string) (Mutex, error) {
 	m := &mutex{
 		m:       concurrency.NewMutex(session, name),
 		timeout: c.requestTimeout,
+
+		releaseTimeout: c.requestTimeout,
 	}
 	if c.mutexes == nil {
 		c.mutexes = make(map[string]*mutex)
